@@ -53,11 +53,11 @@ func (g *G) Wide() *DNode {
 	return a
 }
 
-// Deep draws a spine nested 24..70 levels (objects and arrays alternating irregularly), with a
+// Deep draws a spine nested 14..44 levels (objects and arrays alternating irregularly), with a
 // few scalar members beside the spine: far deeper than the usual five levels, at sizes where a
 // traversal's explicit stack or a recursion has to grow.
 func (g *G) Deep() *DNode {
-	n := 24 + g.intn("deeplevels", 47)
+	n := 14 + g.intn("deeplevels", 31)
 	cur := g.Leaf()
 	for i := 0; i < n; i++ {
 		if g.chance("deepobj", 60) {
@@ -84,7 +84,8 @@ func (g *G) FreeDoc(depth int) *DNode {
 	if depth > 0 && g.chance("wide", 2) {
 		return g.Wide()
 	}
-	if depth >= 2 && !g.deepUsed && g.chance("deep", 1) {
+	// (evaluation cost has one degree per recursive descent: a deep spine only under paths with at most one)
+	if depth >= 2 && !g.deepUsed && !g.O.NoDeepDocs && g.recs <= 1 && g.chance("deep", 1) {
 		g.deepUsed = true // at most one deep spine per case
 		return g.Deep()
 	}
